@@ -108,6 +108,7 @@ struct lifetime_monitor : public expectation
         if (*p == this) { *p = older_monitor; break; }
       }
     }
+    sequences.reset(); // leave the sequences while the lock is held
   }
 
   lifetime_monitor& operator=(lifetime_monitor const&) = delete;
